@@ -12,8 +12,8 @@ use rand::{Rng, SeedableRng};
 use serde_json::json;
 use std::io::Write;
 
-pub struct Recorder {
-    pub sim: Sim<u32>,
+pub struct Recorder<P: Payload + Clone> {
+    pub sim: Sim<P>,
     pub out: std::io::BufWriter<std::fs::File>,
     pub pending: String,
     pub events: u64,
@@ -24,7 +24,7 @@ pub struct Recorder {
     pub broken: bool,
 }
 
-impl Recorder {
+impl<P: Payload + Clone> Recorder<P> {
     pub fn new(path: &str, seed: u64) -> Self {
         let f = std::fs::File::create(path).expect("cannot create trace file");
         Recorder { sim: Sim::new(), out: std::io::BufWriter::new(f), pending: format!("{}.pending", path), events: 0, rng: StdRng::seed_from_u64(seed), next_val: 1, phantom: 0, broken: false }
@@ -123,8 +123,26 @@ impl Recorder {
         // a call that never returns is found by the driver through this file
         std::fs::write(&self.pending, json!({"event": self.events + 1, "call": c}).to_string()).ok();
         let prevcap = self.sim.arena.capacity();
+        // payload objects in the arena before the call (slot -> serial), for the destructor log (C08)
+        let pre: Vec<(usize, u64)> = if P::TRACKED {
+            self.sim.arena.iter().enumerate().filter(|(_, n)| !n.is_removed())
+                .map(|(i, n)| (i + 1, std::panic::catch_unwind(std::panic::AssertUnwindSafe(|| n.get().serial())).unwrap_or(0))).collect()
+        } else {
+            Vec::new()
+        };
+        if P::TRACKED {
+            DROP_LOG.with(|l| l.borrow_mut().clear());
+        }
         let d = self.sim.apply(c);
         let mut ev = json!({"op": c.op, "a": c.a, "b": c.b, "v": c.v, "checked": c.checked, "res": d.class, "new": d.new, "prevcap": prevcap});
+        if P::TRACKED {
+            let log: Vec<u64> = DROP_LOG.with(|l| std::mem::take(&mut *l.borrow_mut()));
+            let mut drops: Vec<usize> = pre.iter().filter(|(_, ser)| log.contains(ser)).map(|(s, _)| *s).collect();
+            drops.sort();
+            let twice = pre.iter().any(|(_, ser)| log.iter().filter(|x| *x == ser).count() > 1);
+            ev["drops"] = json!(drops);
+            ev["dropped_twice"] = json!(twice);
+        }
         ev["newtok"] = json!(if d.new == 0 { 0 } else if d.reissued_tok != 0 { d.reissued_tok } else { self.sim.issued.len() as u32 });
         if !d.panic_msg.is_empty() {
             ev["panic"] = json!(d.panic_msg);
@@ -151,14 +169,13 @@ impl Recorder {
                 eq = c == self.sim.arena;
                 self.sim.arena = c;
             }
-            #[cfg(feature = "it_deser")]
-            "round_trip" => {
-                let s = serde_json::to_string(&self.sim.arena).unwrap();
-                let c: indextree::Arena<u32> = serde_json::from_str(&s).unwrap();
-                // and serialising the copy again gives the same document
-                eq = c == self.sim.arena && serde_json::to_string(&c).unwrap() == s;
-                self.sim.arena = c;
-            }
+            "round_trip" => match P::round_trip(&self.sim.arena) {
+                Some((c, e)) => {
+                    eq = e;
+                    self.sim.arena = c;
+                }
+                None => return, // not available for this payload type / feature set
+            },
             _ => {}
         }
         let mut ev = json!({"op": op, "a": 0, "eq": eq});
@@ -177,6 +194,17 @@ impl Recorder {
         let n = self.sim.arena.count();
         let o = self.sim.observe(slot, n + 1);
         let mut ev = json!({"op": "observe", "a": slot, "obs": o});
+        // double-ended consumption (C10): rev() of the three double-ended iterators and a few pull words
+        let words = ["FB", "BF", "BBF", "FFBB", "BFBFB"];
+        ev["de"] = json!({
+            "kidsRev": self.sim.reversed("kids", slot, n + 1),
+            "precRev": self.sim.reversed("prec", slot, n + 1),
+            "follRev": self.sim.reversed("foll", slot, n + 1),
+            "words": words.iter().map(|w| w.chars().map(|c| c.to_string()).collect::<Vec<_>>()).collect::<Vec<_>>(),
+            "kidsPulls": words.iter().map(|w| self.sim.pulls("kids", slot, w)).collect::<Vec<_>>(),
+            "precPulls": words.iter().map(|w| self.sim.pulls("prec", slot, w)).collect::<Vec<_>>(),
+            "follPulls": words.iter().map(|w| self.sim.pulls("foll", slot, w)).collect::<Vec<_>>(),
+        });
         self.state_fields(&mut ev);
         self.emit(ev);
     }
@@ -306,9 +334,7 @@ impl Recorder {
                 }
                 "clone_swap" => self.identity("clone_swap"),
                 "round_trip" => {
-                    if cfg!(feature = "it_deser") {
-                        self.identity("round_trip")
-                    }
+                    self.identity("round_trip")
                 }
                 "observe" => {
                     if live.is_empty() {
@@ -326,7 +352,7 @@ impl Recorder {
     /// arena WITHOUT logging each of them, then logs one `inject` event that stands for all of them.
     /// Every id issued on the way is real and stays in the is_removed sample population.
     pub fn fast_forward(&mut self, slot: usize, cycles: u32) -> Result<(), String> {
-        let val = *self.sim.arena[self.sim.id(slot)].get();
+        let tokv = self.sim.arena[self.sim.id(slot)].get().tok();
         // how many cycles go through silently: probe on a clone; stop before anything that the logged
         // events must show (slot not reused, id reissued, panic)
         let mut probe = self.sim.arena.clone();
@@ -336,7 +362,7 @@ impl Recorder {
         while k < cycles {
             let r = std::panic::catch_unwind(std::panic::AssertUnwindSafe(|| {
                 pid.remove(&mut probe);
-                probe.new_node(val)
+                probe.new_node(P::make(tokv))
             }));
             match r {
                 Ok(id) if usize::from(id) == slot && !seen.contains(&id) => {
@@ -350,7 +376,7 @@ impl Recorder {
         let mut id = self.sim.id(slot);
         for _ in 0..k {
             id.remove(&mut self.sim.arena);
-            id = self.sim.arena.new_node(val);
+            id = self.sim.arena.new_node(P::make(tokv));
             self.sim.issued.push(id);
             self.sim.toks.insert(id, self.sim.issued.len() as u32);
             self.sim.ids[slot - 1] = id;
@@ -396,9 +422,7 @@ impl Recorder {
             mine = false;
             if with_copies && i % 5 == 2 {
                 // a removed (possibly exhausted) slot must survive a serde round trip / a clone unchanged
-                if cfg!(feature = "it_deser") {
-                    self.identity("round_trip");
-                }
+                self.identity("round_trip");
                 self.identity("clone_swap");
             }
             // allocate until nothing is reusable any more (at most the two slots just freed)
@@ -425,7 +449,7 @@ impl Recorder {
 pub fn weights(mix: &str) -> Vec<(&'static str, u32)> {
     match mix {
         "move" => vec![("new", 8), ("append_value", 8), ("move", 50), ("tops", 8), ("fail", 6), ("detach", 8), ("remove", 4), ("remove_subtree", 2), ("set", 2), ("observe", 3), ("clone_swap", 1)],
-        "recycle" => vec![("new", 22), ("append_value", 14), ("move", 16), ("tops", 4), ("fail", 4), ("detach", 3), ("remove", 20), ("remove_subtree", 10), ("set", 3), ("observe", 2), ("round_trip", 1), ("clone_swap", 1)],
+        "recycle" => vec![("new", 22), ("append_value", 14), ("move", 16), ("tops", 4), ("fail", 4), ("detach", 3), ("remove", 20), ("remove_subtree", 10), ("set", 3), ("observe", 9), ("round_trip", 1), ("clone_swap", 1)],
         "fail" => vec![("new", 8), ("append_value", 10), ("move", 14), ("tops", 4), ("fail", 44), ("detach", 4), ("remove", 8), ("remove_subtree", 4), ("set", 2), ("observe", 2)],
         "tops" => vec![("new", 10), ("append_value", 8), ("move", 14), ("tops", 34), ("fail", 6), ("detach", 6), ("remove", 12), ("remove_subtree", 5), ("set", 2), ("observe", 3)],
         // no serde / clone events: identical event sequences under every feature set (C17)
@@ -436,6 +460,14 @@ pub fn weights(mix: &str) -> Vec<(&'static str, u32)> {
 }
 
 pub fn run(args: &[String]) -> i32 {
+    if args.iter().any(|a| a == "--tracked-payload") {
+        run_with::<Tracked>(args)
+    } else {
+        run_with::<u32>(args)
+    }
+}
+
+fn run_with<P: Payload + Clone>(args: &[String]) -> i32 {
     let get = |n: &str, d: &str| args.iter().position(|a| a == n).and_then(|i| args.get(i + 1)).cloned().unwrap_or_else(|| d.to_string());
     let out = get("--out", "trace.ndjson");
     let seed: u64 = get("--seed", "1").parse().unwrap();
@@ -443,7 +475,7 @@ pub fn run(args: &[String]) -> i32 {
     let segment: u64 = get("--segment", "400").parse().unwrap();
     let max_slots: usize = get("--max-slots", "10").parse().unwrap();
     let mix = get("--mix", "mixed");
-    let mut r = Recorder::new(&out, seed);
+    let mut r: Recorder<P> = Recorder::new(&out, seed);
     match mix.as_str() {
         "deep" => {
             // a very deep chain: ancestor relations over dozens of levels (limits hidden in ancestor walks)
@@ -501,7 +533,50 @@ pub fn run(args: &[String]) -> i32 {
             // a second, permanently live node so that the arena is not trivial
             r.call(&Call { op: "new".into(), a: 0, b: 0, v: 2, checked: false, r: vec![] });
             let variant = seed % 3;
-            if real {
+            if !real && seed % 4 == 3 {
+                // two different slots exhausted, their last generations removed one right after the other
+                let d2 = r.call(&Call { op: "new".into(), a: 0, b: 0, v: 3, checked: false, r: vec![] });
+                let slot2 = d2.new;
+                for s in [slot, slot2] {
+                    if let Err(e) = r.fast_forward(s, 32766) {
+                        eprintln!("harness: fast-forward failed: {}", e);
+                        return 2;
+                    }
+                }
+                // both now carry the one-before-last generation: one more cycle each, then remove both
+                for s in [slot, slot2] {
+                    r.call(&Call { op: "remove".into(), a: s, b: 0, v: 0, checked: false, r: vec![] });
+                    r.call(&Call { op: "new".into(), a: 0, b: 0, v: 9, checked: false, r: vec![] });
+                }
+                r.call(&Call { op: "remove".into(), a: slot, b: 0, v: 0, checked: false, r: vec![] });
+                r.call(&Call { op: "remove".into(), a: slot2, b: 0, v: 0, checked: false, r: vec![] });
+                // keep removing and re-creating whatever comes back (liveness by call history), so that a slot
+                // that is wrongly handed out again goes through further generations
+                let mut mine: Vec<usize> = Vec::new();
+                for _ in 0..3 {
+                    let v = r.next_val;
+                    r.next_val += 1;
+                    let d = r.call(&Call { op: "new".into(), a: 0, b: 0, v, checked: false, r: vec![] });
+                    if d.class == "Ok" && d.new != 0 {
+                        mine.push(d.new);
+                    }
+                }
+                for _round in 0..4 {
+                    let cur = std::mem::take(&mut mine);
+                    for s in &cur {
+                        r.call(&Call { op: "remove".into(), a: *s, b: 0, v: 0, checked: false, r: vec![] });
+                    }
+                    for _ in 0..cur.len() {
+                        let v = r.next_val;
+                        r.next_val += 1;
+                        let d = r.call(&Call { op: "new".into(), a: 0, b: 0, v, checked: false, r: vec![] });
+                        if d.class == "Ok" && d.new != 0 {
+                            mine.push(d.new);
+                        }
+                    }
+                }
+                r.drive("recycle", 60, 6);
+            } else if real {
                 r.churn(slot, 32790, if variant == 0 { 0 } else { 4000 + (seed % 7) as u32 }, true);
                 // the last cycles with another slot free at the same time
             } else {
@@ -520,7 +595,18 @@ pub fn run(args: &[String]) -> i32 {
             let mut k = 0;
             while done < events {
                 let cap = [0usize, 0, 3, 16, 0][(k % 5) as usize];
+                // now and then a large capacity that must survive clear() (capacities beyond typical thresholds)
+                let cap = if mix == "values" && k % 2 == 1 { [1500usize, 5000, 70000][(k as usize / 2) % 3] } else { cap };
                 r.reset(cap);
+                if cap >= 1000 {
+                    for _ in 0..3 {
+                        let v = r.next_val;
+                        r.next_val += 1;
+                        r.call(&Call { op: "new".into(), a: 0, b: 0, v, checked: false, r: vec![] });
+                    }
+                    r.call(&Call { op: "remove".into(), a: 2, b: 0, v: 0, checked: false, r: vec![] });
+                    r.call(&Call { op: "clear".into(), a: 0, b: 0, v: 0, checked: false, r: vec![] });
+                }
                 let n = segment.min(events - done);
                 let ms = if k % 3 == 2 { max_slots / 2 + 1 } else { max_slots };
                 r.drive(&mix, n, ms);
